@@ -67,7 +67,7 @@ fn main() {
                 let ps = [progs2[i].clone(), progs2[j].clone()];
                 // pairs without any update or without any read/reset are still explored (final value check)
                 let pre = preludes[(i + j) % preludes.len()].clone();
-                drivers.push(CellDriver { flavour: f, prelude: pre, programs: instantiate(&ps) });
+                drivers.push(CellDriver { cloned: drivers.len() % 2 == 1, flavour: f, prelude: pre, programs: instantiate(&ps) });
             }
         }
         // all unordered triples of 1-op programs
@@ -75,14 +75,14 @@ fn main() {
             for j in i..progs1.len() {
                 for k in j..progs1.len() {
                     let ps = [progs1[i].clone(), progs1[j].clone(), progs1[k].clone()];
-                    drivers.push(CellDriver { flavour: f, prelude: preludes[(i + j + k) % preludes.len()].clone(), programs: instantiate(&ps) });
+                    drivers.push(CellDriver { cloned: drivers.len() % 2 == 1, flavour: f, prelude: preludes[(i + j + k) % preludes.len()].clone(), programs: instantiate(&ps) });
                 }
             }
         }
         // vector flavours: two updaters racing with the removal of an unrelated child (ABA on the children map)
         if matches!(f, Flavour::CounterVecChild | Flavour::IntCounterVecChild | Flavour::GaugeVecChild | Flavour::IntGaugeVecChild) {
             for third in [CellOp::RemoveOther, CellOp::Get] {
-                drivers.push(CellDriver { flavour: f, prelude: vec![], programs: instantiate(&[vec![CellOp::Add(1.0)], vec![CellOp::Add(1.0)], vec![CellOp::RemoveOther, third]]) });
+                drivers.push(CellDriver { cloned: drivers.len() % 2 == 1, flavour: f, prelude: vec![], programs: instantiate(&[vec![CellOp::Add(1.0)], vec![CellOp::Add(1.0)], vec![CellOp::RemoveOther, third]]) });
             }
         }
         if thorough {
@@ -95,7 +95,7 @@ fn main() {
                 for j in 0..4 {
                     for k in j..4 {
                         let ps = [a.clone(), progs1[j].clone(), progs1[k].clone()];
-                        drivers.push(CellDriver { flavour: f, prelude: vec![], programs: instantiate(&ps) });
+                        drivers.push(CellDriver { cloned: drivers.len() % 2 == 1, flavour: f, prelude: vec![], programs: instantiate(&ps) });
                     }
                 }
             }
@@ -103,14 +103,14 @@ fn main() {
     }
     let ndrivers = drivers.len();
     rep.rule = format!(
-        "stateless exploration (vsched, Mode U = unbounded with sleep sets; a driver exceeding the execution cap is re-run preemption-bounded) of all thread interleavings at atomic/lock operations of: for each of 4 counter flavours (Counter, IntCounter, children of CounterVec/IntCounterVec fetched by every call), all unordered pairs of programs of length 1..2 over {:?} and all unordered triples of 1-operation programs over {:?}{}; start states fresh / pre-incremented / pre-incremented-then-reset; every update carries a distinct power of two; oracle = linearizability (Wing-Gong) of the recorded call/return history incl. quiescent get() and collect() against a sequential counter. distinct = distinct (flavour, values read, real-time relation) outcomes",
+        "stateless exploration (vsched, Mode U = unbounded with sleep sets; a driver exceeding the execution cap is re-run preemption-bounded) of all thread interleavings at atomic/lock operations of: for each of 4 counter flavours (Counter, IntCounter, children of CounterVec/IntCounterVec fetched by every call), all unordered pairs of programs of length 1..2 over {:?} and all unordered triples of 1-operation programs over {:?}{}; start states fresh / pre-incremented / pre-incremented-then-reset; every update carries a distinct power of two; half of the drivers share one handle by reference, the other half give every thread its own clone; oracle = linearizability (Wing-Gong) of the recorded call/return history incl. quiescent get() and collect() against a sequential counter. distinct = distinct (flavour, values read, real-time relation) outcomes",
         base, alpha, if thorough { "; plus triples with one 2-operation thread" } else { "" }
     );
     rep.bounds = json!({"threads": "2-3", "ops_per_thread": 2, "mode": "U (sleep sets, unbounded)", "drivers": ndrivers});
     let cap = if thorough { 400_000 } else { 200_000 };
     // deviation budget (at most one spurious compare_exchange_weak failure per execution): everywhere in the
     // thorough tier, for the drivers with at most 3 calls in the quick tier
-    let cl = |d: &CellDriver| CellDriver { flavour: d.flavour, prelude: d.prelude.clone(), programs: d.programs.clone() };
+    let cl = |d: &CellDriver| CellDriver { cloned: d.cloned, flavour: d.flavour, prelude: d.prelude.clone(), programs: d.programs.clone() };
     let (small, large): (Vec<CellDriver>, Vec<CellDriver>) = drivers.into_iter().partition(|d| d.programs.iter().map(|p| p.len()).sum::<usize>() <= 3 && (thorough || d.programs.len() == 2));
     SPURIOUS_BUDGET.store(1, std::sync::atomic::Ordering::Relaxed);
     let mut results = explore_many(small, Mode::U, cap, 3, 16, cl);
